@@ -261,6 +261,39 @@ mod termination_replay {
     }
 }
 
+/// Reducer replay: pair `left`/`right`, or three `leaves` combined along the given tree `shape`.
+fn reducer(case: &Value) {
+    let vehicle = Vehicle {
+        profile: Profile::default(),
+        costs: costs(&Value::Null),
+        dimens: Default::default(),
+        details: vec![VehicleDetail {
+            start: Some(VehiclePlace { location: 0, time: TimeInterval { earliest: Some(0.), latest: None } }),
+            end: None,
+        }],
+    };
+    let driver = Driver { costs: costs(&Value::Null), dimens: Default::default(), details: vec![] };
+    let fleet = Fleet::new(vec![Arc::new(driver)], vec![Arc::new(vehicle)], |_| |_| 0);
+    let rc = RouteContext::new(fleet.actors[0].clone());
+    let mk = |v: &Value| {
+        let data: Vec<Float> = v.as_array().unwrap().iter().map(bits).collect();
+        let job = Job::Single(Arc::new(Single { places: vec![], dimens: Default::default() }));
+        InsertionResult::make_success(InsertionCost::new(&data), job, vec![], &rc)
+    };
+    let result = if let Some(leaves) = case.get("leaves") {
+        let (a, b, c) = (mk(&leaves[0]), mk(&leaves[1]), mk(&leaves[2]));
+        if case["shape"] == "left" {
+            InsertionResult::choose_best_result(InsertionResult::choose_best_result(a, b), c)
+        } else {
+            InsertionResult::choose_best_result(a, InsertionResult::choose_best_result(b, c))
+        }
+    } else {
+        InsertionResult::choose_best_result(mk(&case["left"]), mk(&case["right"]))
+    };
+    let cost: Option<Vec<String>> = result.as_success().map(|s| s.cost.iter().map(|v| v.to_bits().to_string()).collect());
+    println!("{}", serde_json::to_string(&json!({"winner": cost})).unwrap());
+}
+
 fn max_generation(case: &Value) {
     use termination_replay::*;
     use vrp_core::rosomaxa::prelude::*;
@@ -318,6 +351,9 @@ fn main() {
     }
     if case["kind"] == "max_generation" {
         return max_generation(&case);
+    }
+    if case["kind"] == "reducer" {
+        return reducer(&case);
     }
 
     let closed = case["closed"].as_bool().unwrap_or(true);
